@@ -19,6 +19,11 @@ script = {
   'hooks_base':   [[kind, id], ...]   class-level hooks applied to that base class (outermost first)
   'forms':        {responder name: 'object' | 'wrapped'}  the responder is additionally wrapped (outermost) by a
                                       transparent decorator: a callable descriptor object / a plain function
+  'hook_forms':   {str(hook id): form}  how the hook action is provided ("any callable", hooks.rst): 'function',
+                                      'object' (instance with __call__), 'partial', 'method' (bound method) and, on
+                                      ASGI where the action is a callable returning an awaitable, also
+                                      'sync_returns_coro', 'future' (Task), 'gather', 'awaitable' (__await__ object);
+                                      the ASGI-only forms fall back to 'function' on WSGI.  A hook is a hook.
   'mw_arg', 'cors': how the middleware argument is spelled (list/tuple/iter/bare component) and whether
                                       cors_enable is set - neither changes what is expected of the user's stack
   comps[i]['lform']: how the lifespan handlers are provided (method/static/classmethod/instance attribute/
@@ -137,6 +142,17 @@ def site_codes(script):
         sites.append(('B%d' if kind == 'before' else 'A%d') % hid)
     sites += ['R', 'S']
     return {s: n for n, s in enumerate(sites)}
+
+
+SYNC_HOOK_FORMS = ('function', 'object', 'partial', 'method')
+ASYNC_ONLY_HOOK_FORMS = ('sync_returns_coro', 'future', 'gather', 'awaitable')
+
+
+def hook_form(script, stack, hid):
+    f = (script.get('hook_forms') or {}).get(str(hid)) or 'function'
+    if stack == 'wsgi' and f in ASYNC_ONLY_HOOK_FORMS:
+        return 'function'
+    return f
 
 
 def responder_hooks(script, responder):
@@ -314,6 +330,7 @@ class _Interp:
             return self.call('R', ('R', responder, tuple(sorted(kwargs.items())))) != 'raise'
         kind, hid = hooks[k]
         if kind == 'before':
+            self.classes.add('hookform.%s.before' % hook_form(self.script, self.case['stack'], hid))
             if self.call('B%d' % hid, ('before', hid, rtag)) == 'raise':
                 self.classes.add('raise.before')
                 return False
@@ -321,6 +338,7 @@ class _Interp:
         if not self.responder_stack(hooks, k + 1, responder, rtag, kwargs):
             self.classes.add('after.skipped')
             return False
+        self.classes.add('hookform.%s.after' % hook_form(self.script, self.case['stack'], hid))
         if self.call('A%d' % hid, ('after', hid, rtag)) == 'raise':
             self.classes.add('raise.after')
             return False
